@@ -2,6 +2,7 @@ package checks
 
 import (
 	"encoding/json"
+	"time"
 
 	"verifharness/internal/core"
 	"verifharness/internal/gen"
@@ -19,6 +20,11 @@ func init() {
 	register(&core.Check{
 		ID:          "C14",
 		Amplify:     amplifyAPI,
+		Designs: []core.Design{
+			{Name: "cuttingplanes", Module: "CuttingPlanes", Cfg: "CuttingPlanes_quick.cfg", Tier: "quick", Workers: 8, XmxMB: 6000, Timeout: 10 * time.Minute},
+			{Name: "cuttingplanes", Module: "CuttingPlanes", Cfg: "CuttingPlanes_thorough.cfg", Tier: "thorough", Workers: 16, XmxMB: 12000, Timeout: 30 * time.Minute},
+			{Name: "cuttingplanes-ceil", Module: "CuttingPlanes", Cfg: "CuttingPlanes_ceil.cfg", Workers: 2, XmxMB: 4000, Timeout: 10 * time.Minute, ExpectViolation: "RoundSound"},
+		},
 		TraceModule: "APITrace",
 		Budget:      0,
 		Cases: func(env *core.Env) []core.Case {
